@@ -13,6 +13,7 @@ MODULES = {
                     "Cover, SumAll, SizesInRange, NormSame, RowInChunk for ALL n, rpc >= 1"),
     "IndexProofs": ("PyIndex", ("Clamp(v, s, n)", "Count(lo, hi, s)"),
                     "ClampRange, ProgPos, ProgNeg, CountBound: every position a slice selects lies on the axis, for ALL n, start, stop, step"),
+    "CacheRuleProofs": (None, ("CacheRule",), "SourceKnown, NoConsultWhenDisabled, OnlyCompleteIndexes, UsableIsUsed, WritesOnlyWhenAsked: consequences of the cache rule for ALL cell states"),
     # proof modules that EXTEND the TLC-checked module: no definitions to compare; instead TLC evaluates the proof module's ASSUMEs on a
     # concrete instance (the assumptions are satisfiable, and the TLC configuration is an instance of the theorem)
     "LoadsProofs": (None, ("Loads",), "PrivateHandlesSafe: with a handle per load every read is served from the offset its own thread sought, for ANY threads and chunk counts",
@@ -86,7 +87,7 @@ def prove(chk, module="ChunkProofs"):
             for dep in names:
                 shutil.copy(os.path.join(tlc.SPEC_DIR, dep + ".tla"), d)
         p = subprocess.run(["tlapm", "--cleanfp", module + ".tla"], cwd=d, stdout=subprocess.PIPE, stderr=subprocess.STDOUT, text=True, timeout=2400)
-        if ref is None and "obligations proved" in p.stdout:
+        if ref is None and "obligations proved" in p.stdout and len(ent) > 3:
             # the ASSUMEs of the proof module evaluated by TLC on a concrete instance; with the key assumption negated TLC must object
             mc, cfg, (good, bad) = ent[3], ent[4], ent[5]
             for f in ("TLAPS.tla", "SequenceTheorems.tla", "NaturalsInduction.tla", "WellFoundedInduction.tla", "FunctionTheorems.tla"):
